@@ -21,6 +21,14 @@
 From GC Require Import Base Model_Regex Model_RegexSimplify Proofs_Regex Proofs_RegexRules.
 Local Open Scope nat_scope.
 
+(* the dialect is a parameter of the claim: a diagnostic is only ever issued where the pattern is compiled
+   in the Perl dialect, the one the matcher model and the theorems are about *)
+Lemma diagnostics_only_at_perl_sites call : reacts call = true -> call_dialect call = Some Perl.
+Proof.
+  unfold reacts. intros H. apply mem_In in H. unfold reacting_calls in H. cbn [In] in H.
+  destruct H as [<-|[<-|[]]]; reflexivity.
+Qed.
+
 (* ------------------------------------------------------------------ *)
 (* decidable equality on rx                                             *)
 
